@@ -23,6 +23,7 @@ type handlerInstall struct {
 	owner   *ssa.Function
 	key     string
 	handler *ssa.Function
+	entry   *ssa.MapUpdate // where the entry was decided: in, or the table entry that a copy loop installs
 }
 
 func handlerInstalls(p *load.Program) []handlerInstall {
@@ -62,7 +63,7 @@ func handlerInstalls(p *load.Program) []handlerInstall {
 								for _, ref := range *mk.Referrers() {
 									if lu, ok := ref.(*ssa.MapUpdate); ok && lu.Map == ssa.Value(mk) {
 										if k2, isC := kit.ConstString(lu.Key); isC {
-											out = append(out, handlerInstall{mu, f, k2, kit.FuncValueTarget(lu.Value)})
+											out = append(out, handlerInstall{mu, f, k2, kit.FuncValueTarget(lu.Value), lu})
 											n++
 										}
 									}
@@ -75,7 +76,7 @@ func handlerInstalls(p *load.Program) []handlerInstall {
 					}
 				}
 			}
-			out = append(out, handlerInstall{mu, f, key, kit.FuncValueTarget(mu.Value)})
+			out = append(out, handlerInstall{mu, f, key, kit.FuncValueTarget(mu.Value), mu})
 		})
 	}
 	return out
